@@ -184,6 +184,7 @@ func (e *c23Env) walk() (outside []string, created int) {
 		rel, rerr := filepath.Rel(e.tmp, p)
 		if rerr != nil || !(strings.HasPrefix(rel, "root"+string(filepath.Separator)) || strings.HasPrefix(rel, "croot"+string(filepath.Separator))) {
 			outside = append(outside, rel)
+			e.baseline[p] = true // reported once, blamed on the request that preceded this walk
 		}
 		return nil
 	})
